@@ -6,7 +6,7 @@
    when busy_counter = 0 and the queue is empty (what the solver does: always after a wait).
    Tie to the C code: trace validation of the real pool under the scheduler shim (checks/C06.py). *)
 From Coq Require Import List ZArith Bool Arith Permutation.
-From MPSV Require Import Conc.PoolModel Conc.PoolWitness Conc.PoolProps.
+From MPSV Require Import Conc.PoolModel Conc.PoolWitness Conc.PoolProps Conc.PoolProgress Conc.PoolAsync.
 Import ListNotations.
 
 (* nothing is lost or duplicated: the tasks handed over are, as a multiset, the ones still with the
@@ -84,17 +84,76 @@ Theorem C06_pool_limit_when_idle_ok : forall tr s,
 Proof. exact pool_limit_when_idle_ok. Qed.
 Print Assumptions C06_pool_limit_when_idle_ok.
 
-(* PARTIAL (no lost wake-up on queue_changed; full deadlock freedom of the disciplined model is
-   not proved, it is covered by the exhaustive small-scope exploration of the real pool only):
-   from the moment a worker has found the queue empty until it is inside cond_wait it owns
-   queue_changed_mutex and the queue is still empty, so an assign (push + signal, both under that
-   mutex) cannot fall between the emptiness test and the wait. *)
-Theorem C06_pool_no_stuck_state_partial : forall tr s i x,
+(* no lost wake-up on queue_changed (any trace, disciplined or not): from the moment a worker has
+   found the queue empty until it is inside cond_wait it owns queue_changed_mutex and the queue is
+   still empty, so an assign (push + signal under that mutex) cannot fall between test and wait *)
+Theorem C06_pool_no_lost_wakeup : forall tr s i x,
   run init tr = Some s -> nth_error (workers s) i = Some x ->
   (w_pc x = WIdleSignal \/ w_pc x = WIdleUnlockWC \/ w_pc x = WCondWait) ->
   qc_owner s = Some (S i) /\ queue s = [].
 Proof. exact pool_no_stuck_state_partial. Qed.
-Print Assumptions C06_pool_no_stuck_state_partial.
+Print Assumptions C06_pool_no_lost_wakeup.
+
+(* DEADLOCK FREEDOM of the disciplined model: in every reachable state in which the API script is
+   not finished some step other than a spurious wake-up is enabled ... *)
+Theorem C06_pool_no_stuck_state : forall tr s,
+  run_d init tr = Some s -> pc0 s <> CDone ->
+  exists l s', is_spurious l = false /\ step_d s l = Some s'.
+Proof. exact pool_no_stuck_state. Qed.
+Print Assumptions C06_pool_no_stuck_state.
+
+(* ... and while the client is blocked (inside cond_wait of mps_thread_pool_wait with no signal
+   pending, or in pthread_join on a worker that has not exited) it is a WORKER step *)
+Theorem C06_pool_no_stuck_worker : forall tr s,
+  run_d init tr = Some s -> client_blocked s ->
+  exists l s', is_spurious l = false /\ label_tid l <> 0%nat /\ step_d s l = Some s'.
+Proof. exact pool_no_stuck_worker. Qed.
+Print Assumptions C06_pool_no_stuck_worker.
+
+(* RANKING FUNCTION: while the client is inside wait, every step other than a spurious wake-up, by
+   whichever thread, strictly lowers rank = 10*|queue| + sum of the workers' distances to their resting
+   point + the client's; a spurious wake-up raises it by at most spurious_cost = 16 (it only re-checks
+   and goes back to sleep).  Holds in every state, reachable or not. *)
+Theorem C06_pool_wait_rank_decreases : forall s l s',
+  waiting (pc0 s) = true -> step s l = Some s' ->
+  (is_spurious l = false -> (rank s' < rank s)%nat) /\
+  (is_spurious l = true -> (rank s' <= rank s + spurious_cost)%nat).
+Proof. exact rank_step. Qed.
+Print Assumptions C06_pool_wait_rank_decreases.
+
+(* TERMINATION OF WAIT.  Fairness assumptions, explicit: (progress) whenever a step other than a
+   spurious wake-up is enabled the system eventually takes one -- no fairness BETWEEN threads is
+   needed since every such step lowers the rank; (spurious) only k spurious wake-ups occur.  By
+   C06_pool_no_stuck_state such a step exists until wait has returned, and by the bound below at
+   most rank s + 16 k of them can be taken while the client is still inside wait: wait returns. *)
+Theorem C06_pool_wait_terminates : forall tr s s',
+  run s tr = Some s' -> stays_waiting s tr ->
+  (n_other tr <= rank s + spurious_cost * n_spurious tr)%nat.
+Proof. exact pool_wait_terminates. Qed.
+Print Assumptions C06_pool_wait_terminates.
+
+(* exactly once at the level of task BODIES (for C18): along any trace the body of a task starts at
+   most once, and exactly once as soon as the task counts as executed *)
+Theorem C06_pool_body_at_most_once : forall tr s t,
+  run init tr = Some s -> (count_occ Nat.eq_dec (starts_of tr) t <= 1)%nat.
+Proof. exact pool_body_at_most_once. Qed.
+Print Assumptions C06_pool_body_at_most_once.
+
+Theorem C06_pool_body_exactly_once : forall tr s t,
+  run init tr = Some s -> In t (executed s) -> count_occ Nat.eq_dec (starts_of tr) t = 1%nat.
+Proof. exact pool_body_exactly_once. Qed.
+Print Assumptions C06_pool_body_exactly_once.
+
+(* mps_mpsolve_async: one pool, one task t with body [body t] (= mps_caller: solve; callback).  The
+   body's events appear never or once, as one block in the body's own order; they have appeared once
+   t is executed, in particular when a wait on the pool returns. *)
+Theorem C06_pool_async_once : forall (A : Type) (body : task -> list A) tr s t,
+  run init tr = Some s -> assigned s = [t] ->
+  (interp body tr = [] \/ interp body tr = body t) /\
+  (In t (executed s) -> interp body tr = body t) /\
+  (pc0 s = CRet EWaitRet -> interp body tr = body t).
+Proof. exact @pool_async_once. Qed.
+Print Assumptions C06_pool_async_once.
 
 (* ---- non-vacuity: the hypotheses are met by concrete, non-trivial traces ---- *)
 (* a full round (new 2; two tasks; wait; free) is a trace of the model, also of the disciplined one,
@@ -112,7 +171,7 @@ Example C06_ex_barrier_reached :
   | Some s => pc0 s = CRet EWaitRet /\ length (assigned s) = 2%nat
   | None => False end.
 Proof. vm_compute. repeat split. Qed.
-(* a worker about to sleep (hypothesis of the partial theorem) occurs *)
+(* a worker about to sleep (hypothesis of C06_pool_no_lost_wakeup) occurs *)
 Example C06_ex_condwait_reached :
   match run init (firstn 14 example_round) with
   | Some s => exists x, nth_error (workers s) 0 = Some x /\ w_pc x = WCondWait
@@ -121,3 +180,22 @@ Proof. vm_compute. eexists; split; reflexivity. Qed.
 (* the refutation witness is NOT a trace of the disciplined model *)
 Example C06_ex_witness_not_disciplined : run_d init witness_limit_running = None.
 Proof. vm_compute. reflexivity. Qed.
+
+(* the client blocked in wait is reachable in the disciplined model (hypothesis of no_stuck_worker) *)
+Example C06_ex_client_blocked :
+  match run_d init (firstn 30 example_round) with
+  | Some s => cont0 s = false /\ pc0 s = CWaitBlocked AWait /\ mem 0%nat (wc_wait s) = true
+  | None => False end.
+Proof. vm_compute. repeat split. Qed.
+(* an execution that stays inside wait (hypothesis of wait_terminates): 42 steps of the round, rank 52 at its start *)
+Example C06_ex_stays_waiting :
+  match run_d init (firstn 29 example_round) with
+  | Some s => stays_waiting s (firstn 42 (skipn 29 example_round)) /\ rank s = 52%nat
+  | None => False end.
+Proof. vm_compute. repeat split. Qed.
+(* mps_mpsolve_async's use of the pool: one worker, strict_async, task 7 run by the worker, wait returns *)
+Example C06_ex_async :
+  match run init example_async with
+  | Some s => pc0 s = CRet EWaitRet /\ assigned s = [7%nat] /\ strict s = true /\ length (workers s) = 1%nat
+  | None => False end /\ interp (fun t => [t; t]) example_async = [7%nat; 7%nat].
+Proof. vm_compute. repeat split. Qed.
